@@ -94,7 +94,17 @@ def check_limited(case):
     d = np.array(p.correctdXdtEuler(dt, g, J, r, n), dtype=float)
     net = np.array(p._netFlux, dtype=float)
     L, F, src = ref.limited(b, n, g, dt)
+    LT, scaled = ref.limited_total(b, n, g, dt)
     nlimited = 0
+    # the correction's documented purpose: "the total number of particles leaving a bin should be less than or equal to the number
+    # of particles in the bin" - also for a class around the critical radius, which loses through both faces
+    for i in range(N):
+        lost = (max(-net[i], 0.0) if src[i] == i else 0.0) + (max(net[i + 1], 0.0) if src[i + 1] == i else 0.0)
+        if lost * dt > n[i] * (1 + 1e-12) + 1e-300:
+            out.fail("class_loss_exceeds_content", "class %d holds %r but loses %r through its two faces in dt=%r (lower face %r, upper face %r)" % (i, n[i], lost * dt, dt, net[i], net[i + 1]), cls=i)
+            break
+    if scaled:
+        out.label("two_sided_loss_scaled")
     for k in range(N + 1):
         s = src[k]
         if s is None:
@@ -105,7 +115,12 @@ def check_limited(case):
         if abs(net[k]) * dt > n[s] * (1 + 1e-12) + 1e-300:
             out.fail("face_loss_exceeds_content", "face %d: class %d holds %r but loses %r in dt=%r" % (k, s, n[s], abs(net[k]) * dt, dt), face=k)
             break
-        if abs(F[k]) * dt <= n[s] * (1 - 1e-9):
+        if k in scaled:
+            nlimited += 1
+            if abs(net[k] - LT[k]) > 1e-9 * abs(LT[k]) + 1e-300:
+                out.fail("unlimited_face_changed", "face %d drains class %d together with its other face: expected %r (both out-fluxes scaled to the content), carries %r" % (k, s, LT[k], net[k]))
+                break
+        elif abs(F[k]) * dt <= n[s] * (1 - 1e-9):
             if abs(net[k] - F[k]) > 1e-12 * abs(F[k]):
                 out.fail("unlimited_face_changed", "face %d needed no limiting (flux %r) but carries %r" % (k, F[k], net[k]))
                 break
